@@ -13,13 +13,16 @@ from sfv.props.ixcommon import H, HT, Interner, parse_answer, check_bijection
 TARGETS = ['SFModel.Props.C02']
 THEOREMS = [
     'SF.C02.mk_ok_iff_nodup', 'SF.C02.wf_bijection', 'SF.C02.bijection', 'SF.C02.auto_bijection',
-    'SF.C02.slice_inclusive', 'SF.C02.go_history', 'SF.C02.extend_atomic', 'SF.C02.append_rejected_unchanged',
+    'SF.C02.slice_inclusive', 'SF.C02.slice_inclusive_descending', 'SF.C02.go_history', 'SF.C02.extend_atomic', 'SF.C02.append_rejected_unchanged',
     'SF.C02.fromLabels_sound', 'SF.C02.fromLabels_rejects', 'SF.C02.leaf_bijection',
     'SF.C02.appendPinned_counterexample', 'SF.C02.append_repaired_example', 'SF.C02.append_exact',
     'SF.C02.levelGO_history', 'SF.C02.levelGO_extend_rejected',
 ]
 PARTIAL = []
 CORR_ONLY = [
+    'aliasing of tree nodes (shared ArrayGO of targets built by from_product, un-shared by the copy in IndexHierarchy.__init__): the Lean '
+    'Level is a value tree without object identity; covered by the oracle only (grow-only histories start from every construction / '
+    'conversion route at depth 3-4; the static source and copies taken before the growth must stay unchanged)',
     'automap hashing (model parameter: "insertion raises iff the ==/hash class is present"), isinstance(value, INT_TYPES) (model parameter IntLabel)',
     'typed datetime indices (IndexDate/YearMonth/Year/Second): label conversion and the loose datetime slice branches of LocMap.map_slice_args',
     'derivation routes (selection, drop, relabel, roll, sort, set operations, level_add/level_drop, flat, astype, rehierarch, copy/rename, static<->GO): tied by the oracle "the result satisfies the bijection" and a list reference',
@@ -181,13 +184,32 @@ def gen_ihgo(rng):
     return {'k': 'ihgo', 'toks': toks, 'kinds': kinds, 'ops': ops}
 
 
+def gen_ihgo_routes(rng):
+    """histories that start from every construction / conversion route at depth 3 and 4 (shared sub-trees of from_product,
+    rebuilt trees of selections, static -> GO conversions, copies), appends at every depth of the right-most path"""
+    depth = rng.choice([3, 3, 4])
+    kinds = [rng.choice('sif') for _ in range(depth)]
+    route = rng.choice(ic.GO_START_ROUTES)
+    if route in ('from_product', 'static_product_to_go') or rng.random() < 0.4:
+        while True:
+            levels = [rng.sample(ic.GROW_POOLS[k][:4], rng.randint(1, 3)) for k in kinds]
+            tups = [tuple(t) for t in itertools.product(*levels)]
+            if len(tups) <= 18:
+                break
+    else:
+        toks, kinds = ic.rand_tree_tuples(rng, depth, kinds=kinds, max_fan=3, max_leaves=rng.choice([2, 5, 9]))
+        tups = [untok(t) for t in toks]
+    return {'k': 'ihgo', 'toks': [tok(t) for t in tups], 'kinds': kinds, 'start': route,
+            'ops': ic.rand_grow_history(rng, tups, kinds, rng.randint(2, 6))}
+
+
 def gen_derive(rng):
     if rng.random() < 0.55:
         kind = rng.choice(['str', 'int', 'float', 'date', 'mixed', 'bool'])
         toks = ic.rand_flat_tokens(rng, kind, rng.choice([0, 1, 2, 3, 5, 7]), dup_p=0)
         base = {'flat': toks, 'kind': kind, 'go': rng.random() < 0.3, 'auto': None}
-        if rng.random() < 0.2:
-            base = {'flat': None, 'kind': 'int', 'go': rng.random() < 0.5, 'auto': rng.randint(0, 5)}
+        if rng.random() < 0.3:
+            base = {'flat': None, 'kind': 'int', 'go': rng.random() < 0.5, 'auto': rng.randint(0, 7)}
         op = rng.choice(DERIVE_FLAT)
         n = len(toks) if base['auto'] is None else base['auto']
     else:
@@ -197,7 +219,9 @@ def gen_derive(rng):
         op = rng.choice(DERIVE_IH)
         n = len(toks)
     arg = {'pos': rng.sample(range(n), rng.randint(0, n)) if n else [],
-           'sl': [rng.randint(0, n), rng.randint(0, n), rng.choice([None, 1, 2])],
+           # head slices with a step (start 0) are frequent: the derived index of an automatic one keeps labels that are
+           # no longer positions
+           'sl': [rng.choice([0, rng.randint(0, n)]), rng.choice([n, rng.randint(0, n)]), rng.choice([None, 1, 2, 2, 3])],
            'mask': [rng.random() < 0.5 for _ in range(n)],
            'shift': rng.randint(-n - 1, n + 1), 'asc': rng.random() < 0.5,
            'collide': rng.random() < 0.3, 'which': rng.choice(['list', 'slice', 'mask', 'int'])}
@@ -259,6 +283,8 @@ def cases(ctx):
             yield gen_derive(rng)
         if i % 5 == 0:
             yield gen_ihgo(rng)
+        if i % 10 == 0:
+            yield gen_ihgo_routes(rng)
         if i % 40 == 0:
             # level_drop of outer levels on depth >= 3 followed by lookups (the offsets of the promoted targets: repaired F45)
             depth = rng.choice([3, 3, 4])
@@ -277,6 +303,7 @@ def search(ctx):
         yield gen_ih(rng)
         yield gen_derive(rng)
         yield gen_ihgo(rng)
+        yield gen_ihgo_routes(rng)
 
 
 # ----------------------------------------------------------------------------- model lines
@@ -309,10 +336,18 @@ def flat_keys(c):
             keys.append(('listprobe',))
         keys.append(('list', [n - 1, 0] if n > 1 else [0]))
         keys.append(('mask', [(i % 2 == 0) for i in range(n)]))
-        # descending label slices (step -1): start and stop label both included (finding F47)
+        # descending label slices (step -1): start and stop label both included (F47 repaired; F48 on datetime-typed indices)
         for (i, j) in ((n - 1, 0), (n - 1, n // 2), (n // 2, n // 2)):
             if i not in none_at and j not in none_at:
                 keys.append(('slneg', i, j))
+        # steps 2, 3, -2 and open ends with a step; an absent label at either end with a step
+        for (i, j, st) in ((0, n - 1, 2), (0, n - 1, 3), (n - 1, 0, -2), (None, n // 2, 2), (n // 2, None, 2), (None, n // 2, -1),
+                           (n // 2, None, -1), (None, 0, -2), (n - 1, None, -2)):
+            if i not in none_at and j not in none_at:
+                keys.append(('slstep', i, j, st))
+        if has_probe and 0 not in none_at and c['probes'][0] != 'N':
+            keys.append(('slprobestep', 'stop', -1))
+            keys.append(('slprobestep', 'start', 2))
     keys.append(('mask', [True] * (n + 1)))
     return keys
 
@@ -325,6 +360,13 @@ def flat_wire_key(c, key, intern, vals, probes):
         return f'(lab {intern.lab(probes[key[1]])})'
     if k == 'sl':
         return f'(sl {intern.lab(vals[key[1]])} {intern.lab(vals[key[2]])} N)'
+    if k == 'slstep':
+        a = 'N' if key[1] is None else intern.lab(vals[key[1]])
+        b = 'N' if key[2] is None else intern.lab(vals[key[2]])
+        return f'(sl {a} {b} {key[3]})'
+    if k == 'slprobestep':
+        pr = intern.lab(probes[0])
+        return f'(sl {intern.lab(vals[0])} {pr} {key[2]})' if key[1] == 'stop' else f'(sl {pr} {intern.lab(vals[0])} {key[2]})'
     if k == 'slneg':
         return f'(sl {intern.lab(vals[key[1]])} {intern.lab(vals[key[2]])} -1)'
     if k == 'slopen':
@@ -352,6 +394,10 @@ def flat_py_key(key, labels, probes):
         return probes[key[1]]
     if k == 'sl':
         return slice(labels[key[1]], labels[key[2]])
+    if k == 'slstep':
+        return slice(None if key[1] is None else labels[key[1]], None if key[2] is None else labels[key[2]], key[3])
+    if k == 'slprobestep':
+        return slice(labels[0], probes[0], key[2]) if key[1] == 'stop' else slice(probes[0], labels[0], key[2])
     if k == 'slneg':
         return slice(labels[key[1]], labels[key[2]], -1)
     if k == 'slopen':
@@ -402,6 +448,8 @@ def model_lines(c):
         lines = [f'index.mk {ix}']
         for key in auto_keys(n):
             lines.append(f'index.loc {ix} {auto_wire_key(key, intern)}')
+        for key in auto_keys(n):
+            lines.append(f'index.locp {ix} {auto_wire_key(key, intern)} N 0')
         return lines
     if k == 'go':
         st = c['start']
@@ -421,7 +469,7 @@ def ihgo_model_line(c):
     tups = [untok(t) for t in c['toks']]
     depth = len(c['kinds'])
     intern = Interner()
-    ih = sf.IndexHierarchyGO.from_labels(tups) if tups else sf.IndexHierarchyGO.from_labels((), depth_reference=depth)
+    ih, _ = ic.build_go_start(tups, c.get('start', 'from_labels'), depth)
     tree0 = ic.level_wire(ih._levels, intern)
     wire_ops = []
     for op in c['ops']:
@@ -439,11 +487,27 @@ def auto_keys(n):
         keys += [('sl', 0, n - 1), ('sl', n // 2, n - 1), ('sl', 0, 0), ('sl', 1, n), ('slopen', None, n // 2), ('list', [n - 1, 0]),
                  ('list', [0, n]), ('mask', [(i % 2 == 0) for i in range(n)])]
     keys.append(('mask', [True] * (n + 1)))
+    # negative / beyond-range endpoints, steps 2, 3, -1, -2, open ends (correspondence on the public Index.loc_to_iloc and on
+    # Index._loc_to_iloc, the route Series.loc / Frame.loc take; negative integers are not labels on either container route)
+    ends = [None, -n - 3, -1, 0, n // 2, n - 1, n, n + 2]
+    for st in (None, 2, 3, -1, -2):
+        for a in ends:
+            for b in ends:
+                if (a, b, st) != (None, None, None) and (hash((a, b, st, n)) % 3 == 0 or st in (None, -1)):
+                    keys.append(('slx', a, b, st))
+    keys += [('listx', [-1, 0]), ('listx', [0, n + 1]), ('listx', []), ('labx', -1), ('labx', -n - 2)]
     return keys
 
 
 def auto_wire_key(key, intern):
     k = key[0]
+    if k == 'slx':
+        f = lambda v: 'N' if v is None else f'i:{v}'
+        return f'(sl {f(key[1])} {f(key[2])} {"N" if key[3] is None else key[3]})'
+    if k == 'listx':
+        return '(list ' + ' '.join(f'i:{i}' for i in key[1]) + ')'
+    if k == 'labx':
+        return f'(lab i:{key[1]})'
     if k == 'lab':
         return f'(lab i:{key[1]})'
     if k == 'str':
@@ -465,6 +529,12 @@ def auto_wire_key(key, intern):
 
 def auto_py_key(key):
     k = key[0]
+    if k == 'slx':
+        return slice(key[1], key[2], key[3])
+    if k == 'listx':
+        return list(key[1])
+    if k == 'labx':
+        return key[1]
     if k == 'lab':
         return key[1]
     if k == 'str':
@@ -584,6 +654,11 @@ def eval_flat(ctx, c, outs):
             elif key[0] == 'slneg':
                 exp = list(range(key[1], key[2] - 1, -1))
                 det = {'negstep': True}
+            elif key[0] == 'slstep':
+                a, b, st = key[1], key[2], key[3]
+                stop = None if b is None else (b + 1 if st > 0 else (b - 1 if b - 1 >= 0 else None))
+                exp = list(range(n))[slice(a, stop, st)]
+                det = {'negstep': st < 0 and b is not None}
             elif key[0] == 'slopen':
                 exp = list(range(0 if key[1] is None else key[1], n if key[2] is None else key[2] + 1))
             elif key[0] == 'list':
@@ -595,11 +670,12 @@ def eval_flat(ctx, c, outs):
                     fails.append(Failure('oracle', f'{c["cls"]}.loc_to_iloc({pykey!r}) raised {type(r[2]).__name__}, expected positions {exp}', c, detail=det))
                 elif ic.ikey_positions(r[1], n) != exp:
                     fails.append(Failure('oracle', f'{c["cls"]}.loc_to_iloc({pykey!r}) addresses {ic.ikey_positions(r[1], n)}, expected {exp}', c, detail=det))
-            elif key[0] in ('slprobe', 'listprobe') or (key[0] == 'mask' and len(key[1]) != n):
+            elif key[0] in ('slprobe', 'listprobe', 'slprobestep') or (key[0] == 'mask' and len(key[1]) != n):
                 if r[0] == 'ok':
                     fails.append(Failure('oracle', f'{c["cls"]}.loc_to_iloc({pykey!r}) with an absent label / wrong length returned {r[1]!r}', c))
             # correspondence
-            if outs and len(outs) == 1 + len(keys) + len(probes):
+            if outs and len(outs) == 1 + len(keys) + len(probes) and not (key[0] in ('slneg', 'slstep') and c['kind'] in ic.DT_CLASS and (key[0] == 'slneg' or (key[3] < 0 and key[2] is not None))):
+                # (the datetime branch of map_slice_args is not modelled: finding F48 is reported by the oracle above)
                 msg = compare_ikey(outs[1 + ki], r, n)
                 if msg:
                     fails.append(Failure('corr', f'flat {c["cls"]} key {key}: {msg}', c))
@@ -669,10 +745,34 @@ def eval_auto(ctx, c, outs):
         elif key[0] in ('sl', 'list') or (key[0] == 'mask'):
             if r[0] == 'ok':
                 fails.append(Failure('oracle', f'auto index loc_to_iloc({pykey!r}) beyond the labels returned {r[1]!r}', c))
-        if outs and len(outs) == 1 + len(keys):
+        # the container route (Series.loc / Frame.loc / getitem): Index._loc_to_iloc
+        try:
+            rp = ('ok', ix._loc_to_iloc(pykey))
+        except Exception as ex:
+            rp = ('err', err_cat(ex), ex)
+        neg = (key[0] in ('labx',) and key[1] < 0) or (key[0] == 'listx' and any(i < 0 for i in key[1])) \
+            or (key[0] == 'slx' and any(v is not None and v < 0 for v in key[1:3]))
+        if neg and rp[0] == 'ok':
+            fails.append(Failure('oracle', f'auto index _loc_to_iloc({pykey!r}): a negative integer is not a label but {rp[1]!r} was returned', c))
+        if key[0] == 'slx' and key[3] != 0 and not neg and all(v is None or v < n for v in key[1:3]) and rp[0] == 'ok' and n:
+            a, b, st = key[1], key[2], key[3]
+            step = st or 1
+            stop = None if b is None else (b + 1 if step > 0 else (b - 1 if b - 1 >= 0 else None))
+            exp = list(range(n))[slice(a, stop, st)]
+            got = ic.ikey_positions(rp[1], n)
+            if got != exp:
+                fails.append(Failure('oracle', f'auto index _loc_to_iloc({pykey!r}) addresses {got}, expected {exp} (stop label included)', c,
+                                     detail={'auto_negstep': step < 0}))
+        if outs and len(outs) == 1 + 2 * len(keys):
             msg = compare_ikey(outs[1 + ki], r, n)
             if msg:
-                fails.append(Failure('corr', f'auto key {key}: {msg}', c))
+                fails.append(Failure('corr', f'auto key {key} (public loc_to_iloc): {msg}', c))
+            # (a Boolean key of the wrong length is handed through by _loc_to_iloc and fails in NumPy when applied: the
+            #  model folds that IndexError into the lookup)
+            #  (likewise a non-integer label is handed through unchanged)
+            msg = None if ((key[0] == 'mask' and len(key[1]) != n) or key[0] in ('str', 'frac')) else compare_ikey(outs[1 + len(keys) + ki], rp, n)
+            if msg:
+                fails.append(Failure('corr', f'auto key {key} (_loc_to_iloc): {msg}', c))
     if outs:
         m = parse_answer(outs[0])
         if m[0] != 'ok' or m[1][5] != 'A' or int(m[1][4]) != n or m[1][0] != [f'i:{i}' for i in range(n)]:
@@ -874,11 +974,10 @@ def eval_ihgo(ctx, c, outs):
     fails = []
     tups = [untok(t) for t in c['toks']]
     depth = len(c['kinds'])
-    if tups:
-        ih = sf.IndexHierarchyGO.from_labels(tups)
-    else:
-        ih = sf.IndexHierarchyGO.from_labels((), depth_reference=depth)
+    ih, keep = ic.build_go_start(tups, c.get('start', 'from_labels'), depth)
+    ctx.count('ihgo_start_' + c.get('start', 'from_labels'))
     cur = [HT(t) for t in tups]
+    hts0 = list(cur)
     raised = []
     for oi, op in enumerate(c['ops']):
         if op[0] == 'ap':
@@ -925,6 +1024,7 @@ def eval_ihgo(ctx, c, outs):
                                      detail={'op': oi, 'empty_extend': was_empty}))
         raised.append(None if r is None else err_cat(r))
         vio = check_bijection(ih, absent=[('zz',) * depth], expect=cur, what=f'after op {oi} {op}')
+        vio += ic.check_unchanged(keep, hts0, f'after op {oi} {op[0]}')
         for v in vio:
             fails.append(Failure('oracle', v, c, detail={'op': oi, 'key': op[1] if op[0] == 'ap' else None,
                                                         'empty_extend': op[0] == 'ex' and not cur and raised[-1] is not None,
@@ -1226,6 +1326,8 @@ def eval_derive(ctx, c, outs):
 def classify(f):
     c = f.case
     d = f.detail or {}
-    if c.get('k') == 'flat' and f.kind == 'oracle' and d.get('negstep'):
-        return 'F47-label-slice-negative-step-stop'
+    if c.get('k') == 'auto' and f.kind == 'oracle' and d.get('auto_negstep'):
+        return 'F49-auto-index-label-slice-negative-step-stop'
+    if c.get('k') == 'flat' and f.kind == 'oracle' and d.get('negstep') and c.get('kind') in ic.DT_CLASS:
+        return 'F48-datetime-label-slice-negative-step-stop'
     return None
